@@ -123,4 +123,10 @@ def build(tier, seed):
     u11, o11, m11 = C11.build(tier, seed)
     for o in o11:
         o.id = 'C01.qualified.' + o.id.split('.', 1)[1]
-    return [u] + u11, obs + o11, meta
+    # the Warehouse overloads of get_product / get_sum (contents copied into the Lexicon first): the scenario obligation of C05
+    import C05
+    uw, ow, mw = C05.scenarios(tier, seed)
+    ow = [o for o in ow if o.id == 'C05.scenario.warehouse']
+    for o in ow:
+        o.id = 'C01.warehouse'
+    return [u] + u11 + uw, obs + o11 + ow, meta
